@@ -1,6 +1,6 @@
 CONFIG = {
     "level": "proof",
-    "gens": ["NewBoard"],
+    "gens": ["NewBoard", "Perm", "ReadEntryPoints"],
     "passes": [
         {"name": "newboard", "pkg": "c12", "bin": "c12", "driver": "drv_c12", "reset_prefix": "reset", "timeout": 2400},
     ],
@@ -20,6 +20,7 @@ CONFIG = {
         "the theorems are stated for well-formed states: .BRD holds exactly BNumber <= MAX_BOARD complete records, the shared copy equals the records up to FirstChild (and the post-mask bit of hidden boards), both indexes are sorted permutations, occupied names are pairwise distinct up to letter case; other tables (torn tail, more than MAX_BOARD records, duplicate names) are compared with the model, not judged",
         "single process: BBusyState and BusyStateB are 0 (the busy branches of ResetBoard/SortBCache/GetBid are not modelled)",
         "no hidden-board friend list names the caller for the slot of a new board (Shm.Hbfl empty; a new board has no `visible` file and, since 1b78546, HbflReload empties the list when the file is gone)",
+        "ptt.is_uBM is the model of property C07 (Model/C07.lean, imported; Gen/Perm and Gen/ReadEntryPoints are regenerated with it); group_operator_sound uses C07's is_uBM_sound; moderator strings are made of ids and '/' (junk separators are C07's business)",
         "configuration: ptttype.DEFAULT_AUTOCPLOG is the only package variable the creation rules consult; it is part of every request line and driven in both values (set in-process around the call, restored)",
         "both ptt.NewBoard (`create`) and bbs.CreateBoard (`bcreate`: string arguments, the caller's level read from .PASSWDS) are driven; ptttype.NewBM also on its own (`newbm`)",
         "pwcuBitEnableLevel (called by groupOp and IsBMCache) discards the result of pwcuEnableBit: it rewrites the caller's .PASSWDS record unchanged and is modelled as a no-op",
